@@ -121,6 +121,8 @@ def build(run, spec, d, name='mapproxy'):
     if spec['src_kind'] == 'wms':
         conf['sources']['src'] = {'type': 'wms', 'req': {'url': 'http://noise/service?', 'layers': 'a'},
                                   'supported_srs': [spec['grid']['srs']]}
+        if spec.get('dims'):
+            conf['sources']['src']['forward_req_params'] = ['time']
     else:
         conf['sources']['src'] = {'type': 'tile', 'url': 'http://ntiles/t/%(z)s/%(x)s/%(y)s.png', 'grid': 'g'}
     conf['caches']['c'] = dict(spec['cache'])
